@@ -17,6 +17,7 @@ func newGen(prog *Program, fn *ssa.Function, fc *FuncContract, ctx *Ctx) *gen {
 		written: map[*ssa.BasicBlock]map[string]bool{}, counters: map[string]int{}, loopPre: map[*ssa.BasicBlock]State{},
 		ghostEnv: map[string]Val{}, paramEnv: map[string]Val{}}
 	ctx.comp("alloctop", "Int")
+	ctx.comp(epochKey, "Int")
 	g.fnKey = funcKey(fn)
 	return g
 }
@@ -287,8 +288,19 @@ func (g *gen) loopBackEdge(src, header *ssa.BasicBlock, st State, rc string) {
 		saved[phi] = g.vals[phi]
 		next[phi] = g.val(phi.Edges[idx])
 	}
+	// several back edges (continue statements): number them in block order
+	suffix := ""
+	if len(li.backSrcs) > 1 {
+		k := 1
+		for _, b := range li.backSrcs {
+			if b.Index < src.Index {
+				k++
+			}
+		}
+		suffix = fmt.Sprintf(".edge%d", k)
+	}
 	for _, a := range g.autoInvariants(header, li) {
-		g.oblige("invariant", fmt.Sprintf("%s.loop%d.auto.%s.preserved", g.fnKey, li.ordinal, a.name), "inferred bound "+a.name, header.Instrs[0].Pos(), rc, a.at(g, next))
+		g.oblige("invariant", fmt.Sprintf("%s.loop%d.auto.%s.preserved%s", g.fnKey, li.ordinal, a.name, suffix), "inferred bound "+a.name, header.Instrs[0].Pos(), rc, a.at(g, next))
 	}
 	for p, v := range next {
 		g.vals[p] = v
@@ -300,7 +312,7 @@ func (g *gen) loopBackEdge(src, header *ssa.BasicBlock, st State, rc string) {
 		if err != nil {
 			continue
 		}
-		g.obligeClause("invariant", fmt.Sprintf("%s.loop%d.inv.%s.preserved", g.fnKey, li.ordinal, cl.Label), cl, rc, t)
+		g.obligeClause("invariant", fmt.Sprintf("%s.loop%d.inv.%s.preserved%s", g.fnKey, li.ordinal, cl.Label, suffix), cl, rc, t)
 	}
 	for p, v := range saved {
 		g.vals[p] = v
@@ -722,6 +734,15 @@ func (g *gen) instr(in ssa.Instruction, st State, reach string) string {
 			lo = "(- 1)"
 		}
 		g.ctx.assume(fmt.Sprintf("(and (<= %s (%s..0 %s)) (< (%s..0 %s) %d))", lo, tv.S, tv.T, tv.S, tv.T, n))
+		// receiving from ctx.Done() means the context is cancelled: ctx.Err() is then non-nil (std.spec)
+		for i, ss := range x.States {
+			if call, ok := ss.Chan.(*ssa.Call); ok && calleeName(&call.Call) == "(context.Context).Done" {
+				if sf, ok := g.cs.SpecFuncs["ctx_done"]; ok {
+					g.declareSpecFunc(sf)
+					g.ctx.assume(fmt.Sprintf("(=> (= (%s..0 %s) %d) (sf_ctx_done %s))", tv.S, tv.T, i, g.val(call.Call.Value).T))
+				}
+			}
+		}
 	case *ssa.Range:
 		g.vals[x] = Val{T: g.val(x.X).T, S: g.val(x.X).S, GoT: x.X.Type()}
 	case *ssa.Next:
